@@ -73,6 +73,25 @@ func (p *planner) submit(sc *Scenario) {
 	}()
 }
 
+// submitBuild builds the scenario on a worker as well (sparse and mirror
+// directories are independent of each other).
+func (p *planner) submitBuild(name string, build func() *Scenario) {
+	p.wg.Add(1)
+	p.sem <- struct{}{}
+	go func() {
+		defer func() { <-p.sem; p.wg.Done() }()
+		defer func() {
+			if e := recover(); e != nil {
+				p.r.harnessError("%s: building: %v", name, e)
+			}
+		}()
+		if sc := build(); sc != nil {
+			p.count.Add(1)
+			p.r.Episode(sc)
+		}
+	}()
+}
+
 func countPartials(dir, mode string) int {
 	ls, err := List(dir, mode)
 	if err != nil {
@@ -277,27 +296,29 @@ func (p *planner) sparse(i int, n int64, rng *rand.Rand) {
 	if !p.wanted(name) {
 		return
 	}
-	root := p.newRoot()
-	id := NewIdentity(fmt.Sprintf("sparse%d.verif.example/log", i))
-	t := &Target{Mode: "log", Dir: filepath.Join(root, "log"), ID: id, Restart: true}
-	cp, err := BuildSparse(t.Dir, id, n, rng)
-	if err != nil {
-		p.r.harnessError("%s: %v", name, err)
-		RemoveAll(root)
-		return
-	}
-	t.LockBody = cp
-	for L := 0; L <= 3; L++ {
-		if L < 3 || rng.Intn(2) == 0 {
-			PlantAround(t, n, "hash", L, rng)
+	p.submitBuild(name, func() *Scenario {
+		root := p.newRoot()
+		id := NewIdentity(fmt.Sprintf("sparse%d.verif.example/log", i))
+		t := &Target{Mode: "log", Dir: filepath.Join(root, "log"), ID: id, Restart: true}
+		cp, err := BuildSparse(t.Dir, id, n, rng)
+		if err != nil {
+			p.r.harnessError("%s: %v", name, err)
+			RemoveAll(root)
+			return nil
 		}
-	}
-	PlantAround(t, n, "data", 0, rng)
-	PlantAround(t, n, "names", 0, rng)
-	Decoy(root, rng)
-	sc := &Scenario{Name: fmt.Sprintf("sparse/n=%d", n), Root: root, Targets: []*Target{t}}
-	p.decorate(sc, t, rng, variant)
-	p.submit(sc)
+		t.LockBody = cp
+		for L := 0; L <= 3; L++ {
+			if L < 3 || rng.Intn(2) == 0 {
+				PlantAround(t, n, "hash", L, rng)
+			}
+		}
+		PlantAround(t, n, "data", 0, rng)
+		PlantAround(t, n, "names", 0, rng)
+		Decoy(root, rng)
+		sc := &Scenario{Name: fmt.Sprintf("sparse/n=%d", n), Root: root, Targets: []*Target{t}}
+		p.decorate(sc, t, rng, variant)
+		return sc
+	})
 }
 
 // ---------------------------------------------------------------- mirror
@@ -334,34 +355,36 @@ func (p *planner) mirror(i int, rng *rand.Rand, large bool) {
 	if !p.wanted(name) {
 		return
 	}
-	root := p.newRoot()
-	wdir := filepath.Join(root, "witness")
-	origin := fmt.Sprintf("mirror%d.verif.example/log", i)
-	dir, err := mb.Write(wdir, origin, sizes, cpSize)
-	if err != nil {
-		p.r.harnessError("%s: %v", name, err)
-		RemoveAll(root)
-		return
-	}
-	// what a witness directory also holds
-	writeFile(filepath.Join(wdir, "witness.v0.json"), []byte("{}\n"), 0o644, false)
-	writeFile(filepath.Join(wdir, "mirror", "mirror.v0.json"), []byte("{}\n"), 0o644, false)
-	t := &Target{Mode: "mirror", Dir: dir, Origin: origin, LockN: target, Enum: true}
-	sc := &Scenario{Name: fmt.Sprintf("mirror%d/n=%d,tiles=%d", i, cpSize, target), Root: root, Targets: []*Target{t}, Witness: wdir}
-	Decoy(root, rng)
-	if rng.Intn(3) == 0 { // a log in the same configuration
-		id := NewIdentity(fmt.Sprintf("combo%d.verif.example/log", i))
-		lt := &Target{Mode: "log", Dir: filepath.Join(root, "log"), ID: id, Restart: true}
-		ln := 256*int64(1+rng.Intn(600)) + int64(rng.Intn(3)-1)
-		if cp, err := BuildSparse(lt.Dir, id, ln, rng); err == nil {
-			lt.LockBody = cp
-			PlantAround(lt, ln, "hash", 0, rng)
-			PlantAround(lt, ln, "data", 0, rng)
-			sc.Targets = append(sc.Targets, lt)
+	p.submitBuild(name, func() *Scenario {
+		root := p.newRoot()
+		wdir := filepath.Join(root, "witness")
+		origin := fmt.Sprintf("mirror%d.verif.example/log", i)
+		dir, err := mb.Write(wdir, origin, sizes, cpSize)
+		if err != nil {
+			p.r.harnessError("%s: %v", name, err)
+			RemoveAll(root)
+			return nil
 		}
-	}
-	p.decorate(sc, t, rng, variant)
-	p.submit(sc)
+		// what a witness directory also holds
+		writeFile(filepath.Join(wdir, "witness.v0.json"), []byte("{}\n"), 0o644, false)
+		writeFile(filepath.Join(wdir, "mirror", "mirror.v0.json"), []byte("{}\n"), 0o644, false)
+		t := &Target{Mode: "mirror", Dir: dir, Origin: origin, LockN: target, Enum: true}
+		sc := &Scenario{Name: fmt.Sprintf("mirror%d/n=%d,tiles=%d", i, cpSize, target), Root: root, Targets: []*Target{t}, Witness: wdir}
+		Decoy(root, rng)
+		if rng.Intn(3) == 0 { // a log in the same configuration
+			id := NewIdentity(fmt.Sprintf("combo%d.verif.example/log", i))
+			lt := &Target{Mode: "log", Dir: filepath.Join(root, "log"), ID: id, Restart: true}
+			ln := 256*int64(1+rng.Intn(600)) + int64(rng.Intn(3)-1)
+			if cp, err := BuildSparse(lt.Dir, id, ln, rng); err == nil {
+				lt.LockBody = cp
+				PlantAround(lt, ln, "hash", 0, rng)
+				PlantAround(lt, ln, "data", 0, rng)
+				sc.Targets = append(sc.Targets, lt)
+			}
+		}
+		p.decorate(sc, t, rng, variant)
+		return sc
+	})
 }
 
 // ---------------------------------------------------------------- driver
